@@ -170,10 +170,10 @@ func init() {
 					break
 				}
 				un := units[u]
-				// thorough d=2 only on the argv cases of every third definition (cost)
+				// quick: two simultaneous order deviations on every eighth case; thorough: on all
 				dd := d
-				if d == 2 && (u%3 != 0) {
-					dd = 1
+				if d == 1 && u%8 == 0 {
+					dd = 2
 				}
 				v, ex := c20Explore(c, un.def, un.argv, un.comp, dd)
 				res.Evaluations += ex.Stats.Execs
